@@ -236,6 +236,65 @@ func runC04(em *vEmitter, r *vRng) {
 			}
 		}
 	}
+	// a correct password is a correct password also when the hash upgrade its login triggers cannot be
+	// carried out (local upgrades, the record on a retired parameter set, '.tmp' a regular file so that no
+	// record can be rewritten; or a password policy the old password does not meet)
+	for _, why := range []string{"tmp-is-file", "policy"} {
+		ms3 := mNewStore("c04u", r, 3)
+		ms3.plant("root", true, 1, 1600000000, r.bytes(16), []byte("rootpw"), "")
+		ms3.plant("upg", false, 2, 1600000001, r.bytes(32), []byte("upgpw"), "totp: QQ==\n")
+		polT, polC := "", ""
+		if why == "tmp-is-file" {
+			os.WriteFile(filepath.Join(ms3.base, ".tmp"), []byte("not a directory"), 0600)
+		} else {
+			polT, polC = "zxcvbn", "score >= 4"
+		}
+		st3, err := NewStore(ms3.cfgfile, "local", polT, polC, "")
+		if err != nil {
+			panic(err)
+		}
+		api3 := st3.GetInterface()
+		mux3, _ := newWebHandler(api3)
+		direct3, _ := lib.NewDirFromConfig(ms3.cfgfile)
+		for rep := 0; rep < 2; rep++ {
+			for _, x := range []q{{"upg", "upgpw"}, {"root", "rootpw"}, {"upg", "wrong"}, {"upg@example.org", "upgpw"}} {
+				for _, fe := range []string{"FSasl", "FBasic", "FApi", "FLdap"} {
+					observed := false
+					switch fe {
+					case "FSasl":
+						ok, _, err := callback(x.u, x.p, "svc", "", "test", api3)
+						observed = ok && err == nil
+					case "FBasic":
+						req := httptest.NewRequest("GET", "/basic-auth", nil)
+						req.SetBasicAuth(x.u, x.p)
+						rec := httptest.NewRecorder()
+						mux3.ServeHTTP(rec, req)
+						observed = rec.Code == http.StatusOK
+					case "FApi":
+						b, _ := json.Marshal(map[string]string{"username": x.u, "password": x.p})
+						rec := httptest.NewRecorder()
+						mux3.ServeHTTP(rec, httptest.NewRequest("POST", "/api/authenticate", strings.NewReader(string(b))))
+						observed = rec.Code == http.StatusOK
+					case "FLdap":
+						code, _ := ldapHandler{store: api3}.Bind(x.u, x.p, nil)
+						observed = code == ldap.LDAPResultSuccess
+					}
+					name := x.u
+					if fe == "FLdap" {
+						name = strings.SplitN(x.u, "@", 2)[0]
+					}
+					sok, _, _, _, serr := direct3.Authenticate(name, x.p)
+					emu.Lock()
+					em.emit(vCase{Prop: "C04", Kind: "frontend", Class: "frontend-upgrade-fails/" + why + "/" + fe, Nontrivial: true,
+						Coq:   fmt.Sprintf("FeCase %s %s %s %s %s %s", fe, cS(x.u), cS(x.p), cB(sok), cB(serr != nil), cB(observed)),
+						Human: map[string]interface{}{"frontend": fe, "user": x.u, "password": x.p, "store_ok": sok, "accepted": observed, "why_the_upgrade_fails": why}})
+					emu.Unlock()
+					time.Sleep(5 * time.Millisecond)
+				}
+			}
+		}
+		ms3.cleanup()
+	}
 	// the same questions from many clients at once: nothing in the store changes, so every answer must
 	// still be the store's verdict for that very pair (answers must not cross between connections)
 	{
